@@ -166,10 +166,21 @@ def extract():
         gen_kernels_cbca_steps.kernels()
         missing = [(f, s) for f, s in missing if not f.startswith("cbca_step_")]
         steps_by = "T14 (checked by cbcaStep1..4_generated_eq)"
+    glue_by = "fingerprint"
+    if missing and all(f == "cost_volume_aggregation" for f, _ in missing):
+        # A glue statement of cost_volume_aggregation is not found verbatim.  The method is READ statement by statement
+        # (translator/gen_kernels_cbca_glue.py -> Generated/KernelsCbcaGlue.lean) and proved equal to the hand model
+        # (Properties/C11KernelsGlue.lean: aggPlane_generated_eq, iRight_generated_eq, wired_generated, …): `lake build`
+        # decides whether the rewritten text still means the same.  Outside that reader's subset: refused (Unsupported).
+        from . import gen_kernels_cbca_glue
+
+        gen_kernels_cbca_glue.read_all()
+        missing = []
+        glue_by = "glue reader (checked by aggPlane_generated_eq)"
     if missing:
         raise Unsupported("cbca.py: statements the model was written against are no longer in the source: "
                           + "; ".join(f"{f}: `{s.splitlines()[0]}…`" for f, s in missing[:4]))
-    return {"min_rule": variants[0], "defaults": defaults, "recognised_statements": len(EXPECTED_STEPS) + 4 * 4, "arms_read_by": arms_by, "steps_read_by": steps_by}
+    return {"min_rule": variants[0], "defaults": defaults, "recognised_statements": len(EXPECTED_STEPS) + 4 * 4, "arms_read_by": arms_by, "steps_read_by": steps_by, "glue_read_by": glue_by}
 
 
 def render(ext) -> str:
